@@ -147,15 +147,16 @@ Proof. intros f b W. unfold sufl. rewrite (suf_zero bucket nlen H f b W). reflex
 (* a failed entry test means the mapping is behind the limit *)
 Lemma guard_behind : forall f t off n, wf_shared f -> In off (f_chain f (bucket (t_nm t))) ->
   walked2 f (bucket (t_nm t)) (t_head t) off n (t_map t) ->
-  (t_map t / UNIT <? n) || (off <? H + c_hashOff) || (t_map t <? off + 16) = true ->
+  (t_map t / UNIT <? n) || (off <? H + c_hashOff) || negb (off mod 8 =? 0) || (t_map t <? off + 16) = true ->
   t_map t < f_limit f.
 Proof.
   intros f t off n W Io Wk G.
   destruct (linked_bounds bucket nlen H f _ off W Io) as (A1 & A2 & A3 & _).
   pose proof (walked2_count bucket nlen H _ _ _ _ _ _ W Wk) as Cn.
-  apply orb_true_iff in G. destruct G as [G|G]; [apply orb_true_iff in G; destruct G as [G|G]|].
+  repeat (apply orb_true_iff in G; destruct G as [G|G]).
   - apply N.ltb_lt in G. unfold UNIT, c_recordUnit in G. lia.
   - apply N.ltb_lt in G. unfold_consts. lia.
+  - apply negb_true_iff in G. apply N.eqb_neq in G. exfalso. apply G. clear - A1. nlia.
   - apply N.ltb_lt in G. lia.
 Qed.
 
@@ -192,7 +193,7 @@ Proof.
   destruct (off =? 0) eqn:Q0.
   - right. split; [apply same_remaining; cbn; auto; discriminate|]. unfold phi, Rk, RMP in *; simp_t. lia.
   - apply N.eqb_neq in Q0. destruct Io as [->|Io]; [contradiction|].
-    destruct ((t_map t1 / UNIT <? n) || (off <? H + c_hashOff) || (t_map t1 <? off + 16)) eqn:G.
+    destruct ((t_map t1 / UNIT <? n) || (off <? H + c_hashOff) || negb (off mod 8 =? 0) || (t_map t1 <? off + 16)) eqn:G.
     + apply look_fail_progress; auto.
       pose proof (guard_behind f t1 off n W Io Wk G) as Bh. unfold RMP in B.
       apply N.ltb_lt in Bh. rewrite Bh in B. lia.
@@ -206,7 +207,7 @@ Proof.
   intros f t t1 off n bound Nd Eo B. unfold FileConc.dwalk.
   destruct (off =? t_oldh t1).
   - right. split; [apply same_remaining; cbn; auto; discriminate|]. unfold phi, Rk in *; simp_t. lia.
-  - destruct ((off <? H + c_hashOff) || (t_map t1 <? off + 16)).
+  - destruct ((off <? H + c_hashOff) || negb (off mod 8 =? 0) || (t_map t1 <? off + 16)).
     + apply ret_fail_done; assumption.
     + right. split; [apply same_remaining; cbn; auto; discriminate|]. unfold phi, Rk in *; simp_t. lia.
 Qed.
